@@ -36,6 +36,7 @@ func DialConnection(network, address string, timeout time.Duration) (connection 
 //	rconn, _ = netpoll.NewFDConnection(rfd)
 //	wconn, _ = netpoll.NewFDConnection(wfd)
 func NewFDConnection(fd int) (Connection, error) {
+	verifFD(vfdConn, nil, fd)
 	conn := new(connection)
 	err := conn.init(&netFD{fd: fd}, nil)
 	if err != nil {
